@@ -63,6 +63,7 @@ type interpreter struct {
 	condTab map[*value]*condState
 	derived map[*value][][]value
 	forceNext *goroutine
+	tr        *trace
 
 	steps int64
 }
@@ -263,7 +264,11 @@ func visitInstr(fr *frame, instr ssa.Instruction) continuation {
 		i.chanSend(fr, fr.get(instr.Chan).(*channel), fr.get(instr.X))
 
 	case *ssa.Store:
-		store(deref(instr.Addr.Type()), fr.get(instr.Addr).(*value), fr.get(instr.Val))
+		addr := fr.get(instr.Addr).(*value)
+		if addr != nil && i.traceWanted(fr) {
+			i.traceCells(fr, addr, true, instr.Pos())
+		}
+		store(deref(instr.Addr.Type()), addr, fr.get(instr.Val))
 
 	case *ssa.If:
 		succ := 1
@@ -345,6 +350,9 @@ func visitInstr(fr *frame, instr ssa.Instruction) continuation {
 		fr.env[fr.info.idx[instr]] = makeMap(instr.Type().Underlying().(*types.Map).Key(), 0)
 
 	case *ssa.Range:
+		if i.traceWanted(fr) {
+			i.traceMap(fr, fr.get(instr.X), false, instr.Pos())
+		}
 		fr.env[fr.info.idx[instr]] = rangeIter(fr, fr.get(instr.X), instr.X.Type())
 
 	case *ssa.Next:
@@ -402,10 +410,16 @@ func visitInstr(fr *frame, instr ssa.Instruction) continuation {
 		}
 
 	case *ssa.Lookup:
+		if i.traceWanted(fr) {
+			i.traceMap(fr, fr.get(instr.X), false, instr.Pos())
+		}
 		fr.env[fr.info.idx[instr]] = lookup(fr, instr, fr.get(instr.X), fr.get(instr.Index))
 
 	case *ssa.MapUpdate:
 		m := fr.get(instr.Map)
+		if i.traceWanted(fr) {
+			i.traceMap(fr, m, true, instr.Pos())
+		}
 		key := i.concKey(fr, fr.get(instr.Key))
 		v := fr.get(instr.Value)
 		switch m := m.(type) {
